@@ -38,13 +38,15 @@ structure SFrame (keepItems keepArgs : Prop) (e e' : Event) : Prop where
   typ : e'.typ = e.typ
   cat : e'.cat = e.cat
   tags : e'.tags = e.tags
+  ecsCategory : e'.ecsCategory = e.ecsCategory
+  ecsType : e'.ecsType = e.ecsType
   paths : ∃ extra, e'.paths = e.paths ++ extra
   warn : ∃ extra, e'.warnings = e.warnings ++ extra
   data : ∀ κ v, (κ ≠ kItems ∨ keepItems) → lookup κ e.data = some v → lookup κ e'.data = some v
   args : keepArgs → e'.args = e.args
 
 theorem SFrame.refl (a b : Prop) (e : Event) : SFrame a b e e :=
-  ⟨rfl, rfl, rfl, rfl, rfl, rfl, rfl, rfl, rfl, ⟨[], by simp⟩, ⟨[], by simp⟩, fun _ _ _ h => h, fun _ => rfl⟩
+  ⟨rfl, rfl, rfl, rfl, rfl, rfl, rfl, rfl, rfl, rfl, rfl, ⟨[], by simp⟩, ⟨[], by simp⟩, fun _ _ _ h => h, fun _ => rfl⟩
 
 theorem SFrame.trans {a b a' b' : Prop} {e1 e2 e3 : Event} (h1 : SFrame a b e1 e2) (h2 : SFrame a' b' e2 e3) :
     SFrame (a ∧ a') (b ∧ b') e1 e3 := by
@@ -54,7 +56,8 @@ theorem SFrame.trans {a b a' b' : Prop} {e1 e2 e3 : Event} (h1 : SFrame a b e1 e
   obtain ⟨w2, hw2⟩ := h2.warn
   refine ⟨h2.ids.trans h1.ids, h2.selinux.trans h1.selinux, h2.result.trans h1.result,
     h2.session.trans h1.session, h2.ts.trans h1.ts, h2.seq.trans h1.seq, h2.typ.trans h1.typ,
-    h2.cat.trans h1.cat, h2.tags.trans h1.tags, ⟨p1 ++ p2, by rw [hp2, hp1, List.append_assoc]⟩,
+    h2.cat.trans h1.cat, h2.tags.trans h1.tags, h2.ecsCategory.trans h1.ecsCategory,
+    h2.ecsType.trans h1.ecsType, ⟨p1 ++ p2, by rw [hp2, hp1, List.append_assoc]⟩,
     ⟨w1 ++ w2, by rw [hw2, hw1, List.append_assoc]⟩, ?_, ?_⟩
   · intro κ v hk h
     apply h2.data κ v (hk.imp id And.right)
@@ -66,14 +69,14 @@ theorem SFrame.weaken {a b a' b' : Prop} {e e' : Event} (h : SFrame a b e e') (h
   { h with data := fun κ v hk hl => h.data κ v (hk.imp id ha) hl, args := fun hb' => h.args (hb hb') }
 
 theorem warn_sframe (a b : Prop) (e : Event) (w : Warn) : SFrame a b e (warn e w) :=
-  ⟨rfl, rfl, rfl, rfl, rfl, rfl, rfl, rfl, rfl, ⟨[], by simp [warn]⟩, ⟨[w], rfl⟩, fun _ _ _ h => h, fun _ => rfl⟩
+  ⟨rfl, rfl, rfl, rfl, rfl, rfl, rfl, rfl, rfl, rfl, rfl, ⟨[], by simp [warn]⟩, ⟨[w], rfl⟩, fun _ _ _ h => h, fun _ => rfl⟩
 
 theorem addField_sframe (a b : Prop) (typ : Nat) (e : Event) (kv : Bytes × Bytes) :
     SFrame a b e (addField typ e kv) := by
   unfold addField
   split
   · exact warn_sframe a b e _
-  · exact ⟨rfl, rfl, rfl, rfl, rfl, rfl, rfl, rfl, rfl, ⟨[], by simp⟩, ⟨[], by simp⟩,
+  · exact ⟨rfl, rfl, rfl, rfl, rfl, rfl, rfl, rfl, rfl, rfl, rfl, ⟨[], by simp⟩, ⟨[], by simp⟩,
       fun κ v _ h => lookup_append_some _ h, fun _ => rfl⟩
 
 theorem foldl_sframe {α : Type} (a b : Prop) (f : Event → α → Event)
@@ -94,16 +97,18 @@ theorem addPath_sframe (a b : Prop) (v : View) (e : Event) : SFrame a b e (addPa
   split
   · exact warn_sframe a b e _
   · rename_i d _
-    exact ⟨rfl, rfl, rfl, rfl, rfl, rfl, rfl, rfl, rfl, ⟨[d], rfl⟩, ⟨[], by simp⟩, fun _ _ _ h => h, fun _ => rfl⟩
+    exact ⟨rfl, rfl, rfl, rfl, rfl, rfl, rfl, rfl, rfl, rfl, rfl, ⟨[d], rfl⟩, ⟨[], by simp⟩, fun _ _ _ h => h, fun _ => rfl⟩
 
 theorem sframe_of_eq {a b : Prop} {e e1 e2 : Event} (hf : SFrame a b e e1)
     (h1 : e2.ids = e1.ids) (h2 : e2.selinux = e1.selinux) (h3 : e2.result = e1.result)
     (h4 : e2.session = e1.session) (h5 : e2.ts = e1.ts) (h6 : e2.seq = e1.seq) (h7 : e2.typ = e1.typ)
     (h8 : e2.cat = e1.cat) (h9 : e2.tags = e1.tags) (h10 : e2.paths = e1.paths)
-    (h11 : e2.warnings = e1.warnings) (h12 : e2.data = e1.data) (h13 : e2.args = e1.args) :
+    (h11 : e2.warnings = e1.warnings) (h12 : e2.data = e1.data) (h13 : e2.args = e1.args)
+    (h14 : e2.ecsCategory = e1.ecsCategory) (h15 : e2.ecsType = e1.ecsType) :
     SFrame a b e e2 :=
   ⟨h1 ▸ hf.ids, h2 ▸ hf.selinux, h3 ▸ hf.result, h4 ▸ hf.session, h5 ▸ hf.ts, h6 ▸ hf.seq,
-    h7 ▸ hf.typ, h8 ▸ hf.cat, h9 ▸ hf.tags, h10 ▸ hf.paths, h11 ▸ hf.warn, h12 ▸ hf.data, h13 ▸ hf.args⟩
+    h7 ▸ hf.typ, h8 ▸ hf.cat, h9 ▸ hf.tags, h14 ▸ hf.ecsCategory, h15 ▸ hf.ecsType, h10 ▸ hf.paths,
+    h11 ▸ hf.warn, h12 ▸ hf.data, h13 ▸ hf.args⟩
 
 theorem addSockaddr_sframe (a b : Prop) (v : View) (e : Event) : SFrame a b e (addSockaddr v e) := by
   unfold addSockaddr
@@ -118,9 +123,9 @@ theorem addSockaddr_sframe (a b : Prop) (v : View) (e : Event) : SFrame a b e (a
       have h1 : SFrame a b e (d.foldl (fun e kv => addField v.typ e (kSocket_ ++ kv.1, kv.2)) e) :=
         foldl_sframe a b _ (fun e x => addField_sframe a b v.typ e _) _ e
       split
-      · exact sframe_of_eq h1 rfl rfl rfl rfl rfl rfl rfl rfl rfl rfl rfl rfl rfl
+      · exact sframe_of_eq h1 rfl rfl rfl rfl rfl rfl rfl rfl rfl rfl rfl rfl rfl rfl rfl
       · split
-        · exact sframe_of_eq h1 rfl rfl rfl rfl rfl rfl rfl rfl rfl rfl rfl rfl rfl
+        · exact sframe_of_eq h1 rfl rfl rfl rfl rfl rfl rfl rfl rfl rfl rfl rfl rfl rfl rfl
         · exact h1
 
 theorem addExecve_sframe (a : Prop) (v : View) (e : Event) : SFrame a False e (addExecve v e) := by
@@ -142,13 +147,13 @@ theorem addExecve_sframe (a : Prop) (v : View) (e : Event) : SFrame a False e (a
         | error κ => exact (h1.trans (warn_sframe a False _ _)).weaken (fun h => ⟨h, h⟩) (fun h => ⟨h, h⟩)
         | ok as =>
           exact ⟨h1.ids, h1.selinux, h1.result, h1.session, h1.ts, h1.seq, h1.typ, h1.cat, h1.tags,
-            h1.paths, h1.warn, h1.data, fun h => h.elim⟩
+            h1.ecsCategory, h1.ecsType, h1.paths, h1.warn, h1.data, fun h => h.elim⟩
 
 theorem step_sframe (e : Event) (m : View) : SFrame (m.typ ≠ SYSCALL) (m.typ ≠ EXECVE) e (step e m) := by
   unfold step
   split
   · rename_i h
-    exact ⟨rfl, rfl, rfl, rfl, rfl, rfl, rfl, rfl, rfl, ⟨[], by simp⟩, ⟨[], by simp⟩,
+    exact ⟨rfl, rfl, rfl, rfl, rfl, rfl, rfl, rfl, rfl, rfl, rfl, ⟨[], by simp⟩, ⟨[], by simp⟩,
       fun κ v hk hl => by
         rcases hk with hk | hk
         · simpa [lookup_erase_ne _ hk] using hl
